@@ -109,7 +109,7 @@ def run_shard(rep):
             t2 = build(m, c, valgen.respell(rng, p), valgen.respell(rng, q))
             record(idn, t2, 'list/dict re-spelling', wit)
             rep.count('respellings')
-        for proto in range(0, pickle.HIGHEST_PROTOCOL + 1):
+        for proto in valgen.pickle_protocols(base):
             t3 = pickle.loads(pickle.dumps(base, protocol=proto))
             record(idn, t3, f'pickle protocol {proto}', wit)
             rep.count('pickle_roundtrips')
